@@ -263,3 +263,174 @@ package midix
 //@   modifies ghostWriter
 //@   requires w != nil
 //@   ghostensures gw(w) == upd(upd(old(gw(w)), "CloseCnt", old(gw(w).CloseCnt) + 1), "CloseAt", old(gw(w).NN))
+
+// ---- handing the tracks to gomidi (C08) ----
+
+// Assumed contracts of the gomidi calls WriteTo makes (gomidi is not verified; these restate its source:
+// smf.New has no tracks, SMF.Add appends the track whatever it returns, SMF.WriteTo emits one chunk per added track).
+//@ func smf.New returns (r)
+//@   trusted
+//@   allocs smf.SMF
+//@   ensures fresh(r) && len(r.Tracks) == 0
+
+//@ func smf.SMF.Add returns (err)
+//@   trusted
+//@   modifies s
+//@   allocs []smf.Track
+//@   requires s != nil
+//@   ensures len(s.Tracks) == old(len(s.Tracks)) + 1 && s.Tracks[len(s.Tracks) - 1] == t
+//@   ensures forall(k, 0, old(len(s.Tracks)), s.Tracks[k] == old(s.Tracks[k]))
+
+//@ func smf.SMF.WriteTo returns (size, err)
+//@   trusted
+//@   modifies s, ghostOutput
+//@   requires s != nil
+//@   ghostensures ghost(ghostOutput, f).Tracks == old(len(s.Tracks))
+//@   ghostensures forall(k, 0, old(len(s.Tracks)), ghost(ghostOutput, f).Events[k] == old(len(s.Tracks[k])))
+
+// every operation hands gomidi at most one event and touches nothing of crd's
+//@ iface OpFunc.Call (f, t, deltaticks)
+//@   modifies t
+//@   allocs []smf.Event
+//@   requires t != nil
+//@   ensures len(*t) <= old(len(*t)) + 1
+
+//@ func TrackOp.Call
+//@   modifies t
+//@   allocs []smf.Event
+//@   requires t != nil && op.Func != nil
+//@   ensures len(*t) <= old(len(*t)) + 1
+
+//@ func Track.Apply
+//@   modifies tt
+//@   allocs []smf.Event
+//@   requires tt != nil && forall(k, 0, len(t.ops), t.ops[k] != nil && t.ops[k].Func != nil)
+//@   ensures len(*tt) <= old(len(*tt)) + len(t.ops)
+//@   loop 0 modifies tt
+//@   loop 0 allocs []smf.Event
+//@   loop 0 invariant 0 - 1 <= rangeindex && rangeindex < len(t.ops)
+//@   loop 0 invariant len(*tt) <= old(len(*tt)) + rangeindex + 1
+//@   loop 0 decreases len(t.ops) - rangeindex
+
+// WriteTo hands gomidi exactly one track per entry of the track set, in order, filled from that entry's operations only.
+//@ func MIDIWriter.WriteTo returns (n, err)
+//@   modifies ghostOutput
+//@   allocs smf.SMF, smf.Track, []smf.Event, []smf.Track
+//@   requires w.set != nil && wfSet(w.set.set)
+//@   requires forall(i, 0, len(w.set.set.list), forall(k, 0, len(w.set.set.list[i].ops), w.set.set.list[i].ops[k] != nil && w.set.set.list[i].ops[k].Func != nil))
+//@   ensures err == nil ==> ghost(ghostOutput, out).Tracks == len(w.set.set.list)
+//@   ensures err == nil ==> forall(i, 0, len(w.set.set.list), ghost(ghostOutput, out).Events[i] <= len(w.set.set.list[i].ops))
+//@   loop 0 allocs smf.Track, []smf.Event, []smf.Track
+//@   loop 0 modifies s
+//@   loop 0 invariant 0 <= i && i < len(w.set.set.list) && s != nil && len(s.Tracks) == i
+//@   loop 0 invariant forall(j, 0, i, len(s.Tracks[j]) <= len(w.set.set.list[j].ops))
+//@   loop 0 decreases len(w.set.set.list) - i
+
+// gomidi's Track.Add appends the given messages unless the track is already closed; Close appends at most the end-of-track event
+//@ func smf.Track.Add
+//@   trusted
+//@   modifies t
+//@   allocs []smf.Event
+//@   requires t != nil
+//@   ensures len(*t) <= old(len(*t)) + len(msgs) && len(*t) >= old(len(*t))
+
+//@ func smf.Track.Close
+//@   trusted
+//@   modifies t
+//@   allocs []smf.Event
+//@   requires t != nil
+//@   ensures len(*t) <= old(len(*t)) + 1 && len(*t) >= old(len(*t))
+
+//@ define oneEvent(t) len(*t) <= old(len(*t)) + 1
+//@ func MetaTrackSequenceName.Call
+//@   modifies t
+//@   allocs []smf.Event, []smf.Message, []uint8
+//@   requires t != nil
+//@   ensures oneEvent(t)
+//@ func MetaInstrument.Call
+//@   modifies t
+//@   allocs []smf.Event, []smf.Message, []uint8
+//@   requires t != nil
+//@   ensures oneEvent(t)
+//@ func ProgramChange.Call
+//@   modifies t
+//@   allocs []smf.Event, []smf.Message, []uint8
+//@   requires t != nil
+//@   ensures oneEvent(t)
+//@ func NoteOn.Call
+//@   modifies t
+//@   allocs []smf.Event, []smf.Message, []uint8
+//@   requires t != nil
+//@   ensures oneEvent(t)
+//@ func NoteOff.Call
+//@   modifies t
+//@   allocs []smf.Event, []smf.Message, []uint8
+//@   requires t != nil
+//@   ensures oneEvent(t)
+//@ func MetaTempo.Call
+//@   modifies t
+//@   allocs []smf.Event, []smf.Message, []uint8
+//@   requires t != nil
+//@   ensures oneEvent(t)
+//@ func MetaMeter.Call
+//@   modifies t
+//@   allocs []smf.Event, []smf.Message, []uint8
+//@   requires t != nil
+//@   ensures oneEvent(t)
+//@ func MetaKey.Call
+//@   modifies t
+//@   allocs []smf.Event, []smf.Message, []uint8
+//@   requires t != nil
+//@   ensures oneEvent(t)
+//@ func MetaText.Call
+//@   modifies t
+//@   allocs []smf.Event, []smf.Message, []uint8
+//@   requires t != nil
+//@   ensures oneEvent(t)
+//@ func MetaLyric.Call
+//@   modifies t
+//@   allocs []smf.Event, []smf.Message, []uint8
+//@   requires t != nil
+//@   ensures oneEvent(t)
+//@ func MetaMarker.Call
+//@   modifies t
+//@   allocs []smf.Event, []smf.Message, []uint8
+//@   requires t != nil
+//@   ensures oneEvent(t)
+//@ func Close.Call
+//@   modifies t
+//@   allocs []smf.Event
+//@   requires t != nil
+//@   ensures oneEvent(t)
+
+// --track N gives exactly N distinct empty tracks and a selector over them
+//@ func NewTrackSetFromTrackNum returns (r)
+//@   allocs TrackSet, Track, []*Track
+//@   ensures fresh(r) && wfSet(r) && len(r.list) == ite(trackNum < 0, 0, trackNum)
+//@   ensures forall(i, 0, len(r.list), fresh(r.list[i]) && r.list[i].tickDelta == 0 && len(r.list[i].ops) == 0)
+//@   loop 0 allocs Track
+//@   loop 0 modifies list
+//@   loop 0 invariant 0 <= i && i < trackNum
+//@   loop 0 invariant forall(j, 0, i, fresh(list[j]) && list[j] != nil && list[j].tickDelta == 0 && len(list[j].ops) == 0)
+//@   loop 0 invariant forall(j, 0, i, forall(k, 0, i, j != k ==> list[j] != list[k]))
+//@   loop 0 decreases trackNum - i
+
+//@ func NewTrackNoSelector returns (r, err)
+//@   allocs TrackNoSelectorImpl
+//@   ensures (err == nil) == (trackNum >= 1)
+//@   ensures err == nil ==> fresh(r) && r.trackNum == trackNum
+
+//@ func NewTrackSetControllerFromTrackNum returns (r, err)
+//@   allocs TrackSetController, TrackNoSelectorImpl, TrackSet, Track, []*Track
+//@   ensures (err == nil) == (trackNum >= 1)
+//@   ensures err == nil ==> fresh(r) && r.set != nil && wfSet(r.set) && len(r.set.list) == trackNum && r.selector != nil
+
+// a new writer starts with three operations, all addressed to the meta track: sequence name, instrument text, program change
+//@ func NewWriter returns (w)
+//@   modifies Track, ghostSubmitted
+//@   allocs MIDIWriter, TrackOp, MetaTrack, MetaTrackSequenceName, MetaInstrument, ProgramChange, []*TrackOp
+//@   requires wfCtl(set)
+//@   ensures fresh(w) && wfW(w) && w.set == set && w.tickDelta == 0 && w.program == program && w.instrument == instrument
+//@   ensures sub(set).N == old(sub(set).N) + 3
+//@   ensures forall(j, 0, 3, sub(set).Meta[old(sub(set).N) + j] && !sub(set).All[old(sub(set).N) + j] && sub(set).Delta[old(sub(set).N) + j] == 0)
+//@   ensures is(sub(set).Func[old(sub(set).N) + 2], *ProgramChange) && as(sub(set).Func[old(sub(set).N) + 2], *ProgramChange).Program == program && as(sub(set).Func[old(sub(set).N) + 2], *ProgramChange).Channel == 0
